@@ -183,13 +183,13 @@ PROPS = {
         ],
     },
     "C15": {
-        "units": ["hid", "u2f", "psl", "serdecap", "ad"],
+        "units": ["hid", "u2f", "psl", "serdecap", "ad", "cosek"],
         "kani_complete": [],
         "kani_bounded_quick": [],
         "kani_bounded_thorough": [],
         "design_ref": "DESIGN.md section 5 / C15",
         "not_covered": [
-            "AuthenticatorData::from_slice is covered only for its own slicing / conversions / allocation (the only allocation sized by input is the credential id, at most 65535 bytes) over the reader models of unit ad; CBOR (ciborium) / JSON (serde_json) / COSE (coset) decoders, "
+            "public_key_der_from_cose_key / private_key_from_cose_key are covered (unit cosek); the list visitors also for termination (unit serdecap); AuthenticatorData::from_slice is covered only for its own slicing / conversions / allocation (the only allocation sized by input is the credential id, at most 65535 bytes) over the reader models of unit ad; CBOR (ciborium) / JSON (serde_json) / COSE (coset) decoders, "
             "public_key_der_from_cose_key, valid_fingerprint: bodies outside both verifiers' reach",
             "CPU time / 'out of proportion' cost: no cost semantics in a contract",
         ],
